@@ -32,7 +32,7 @@ RULE = ("case = (format, n_frames, entry point, stride, chunk, skip, atom subset
 WORKERS = {"quick": 8, "thorough": 16}
 BUDGET = {"quick": 90, "thorough": 1500}
 EXHAUSTIVE = {"quick": False, "thorough": True}
-FMTS = ["h5", "xtc", "xtc9", "trr", "dcd", "dcd0", "dcd4", "nc", "dtr", "mdcrd", "mdcrd-nobox", "xyz", "xyz.gz", "lammpstrj", "gro", "pdb", "pdb.gz"]
+FMTS = ["h5", "xtc", "xtc9", "trr", "dcd", "dcd0", "dcd4", "nc", "dtr", "mdcrd", "mdcrd-nobox", "xyz", "xyz-foreign", "xyz.gz", "lammpstrj", "gro", "pdb", "pdb.gz"]
 # dcd0 / dcd4: DCD files as other programs write them (stale header count; CHARMM 4-dimensional), see vlib/gen/files.py
 SUBSETS = {0: None, 1: [0, 2, 3], 2: [1], 3: [0, 1, 2, 3, 4, 5]}
 # ai == 4: a seeded random strictly increasing subset of 4..6 atoms (irregular gaps; readers may special-case regular ones)
@@ -170,12 +170,14 @@ def _file_for(fmt, n, f0=0):
     key = (fmt, n, f0)
     if key in _CACHE:
         return _CACHE[key]
-    ext = {"xtc9": "xtc", "dcd0": "dcd", "dcd4": "dcd", "mdcrd-nobox": "mdcrd"}.get(fmt, fmt)
+    ext = {"xtc9": "xtc", "dcd0": "dcd", "dcd4": "dcd", "mdcrd-nobox": "mdcrd", "xyz-foreign": "xyz"}.get(fmt, fmt)
     na = 6 if fmt == "xtc9" else 12
     cell = "ortho" if files.FORMATS[ext]["cell"] and fmt not in ("dcd4", "mdcrd-nobox") else None
     t = files.ident_traj(n, na, cell=cell, f0=f0)
     path = os.path.join(_TMP, f"f_{fmt}_{n}_{f0}.{ext}")
     t.save(path)
+    if fmt == "xyz-foreign":
+        files.xyz_make_foreign(path)
     if fmt == "dcd0":
         files.dcd_set_nset(path, 0)
     elif fmt == "dcd4":
